@@ -34,6 +34,10 @@ SOFTWARE, EVEN IF ADVISED OF THE POSSIBILITY OF SUCH DAMAGE.
 #include <yara/error.h>
 #include <yara/mem.h>
 
+#ifdef YARA_VERIF
+#include <yara/verif.h>
+#endif
+
 typedef struct YR_ARENA_FILE_HEADER YR_ARENA_FILE_HEADER;
 typedef struct YR_ARENA_FILE_BUFFER YR_ARENA_FILE_BUFFER;
 
@@ -150,6 +154,13 @@ static int _yr_arena_allocate_memory(
     size_t new_size = (b->size == 0) ? arena->initial_buffer_size : b->size * 2;
 
     while (new_size < b->used + size) new_size *= 2;
+
+#ifdef YARA_VERIF
+    // H1: grow by exactly what is needed, so that every allocation that does
+    // not fit moves the buffer.
+    if (yr_verif_arena_exact_growth)
+      new_size = b->used + size;
+#endif
 
     // Make sure that buffer size if not larger than 4GB.
     if (new_size > 1ULL << 32)
